@@ -26,4 +26,7 @@ CASES = [
                 phase += modes[d, j] * pos[d, i]"""),
     dict(name="twin-grid-rewritten", kind="twin", file=G,
          old="            np.arange(-mode_no[d] / 2.0, mode_no[d] / 2.0) * self._delta_k[d]", new="            self._delta_k[d] * np.arange(-mode_no[d] / 2, mode_no[d] / 2)"),
+    dict(name="fill-in-front", file="field/generator.py", expect="R17.3", old='            r = np.pad(r, (0, dim - len(r)), "edge")', new='            r = np.pad(r, (dim - len(r), 0), "edge")'),
+    dict(name="fill-with-zero", file="field/generator.py", expect="R17.3", old='            r = np.pad(r, (0, dim - len(r)), "edge")', new='            r = np.pad(r, (0, dim - len(r)), "constant")'),
+    dict(name="twin-fill-keywords", kind="twin", file="field/generator.py", old='            r = np.pad(r, (0, dim - len(r)), "edge")', new='            r = np.pad(r, pad_width=(0, dim - len(r)), mode="edge")'),
 ]
